@@ -1326,7 +1326,8 @@ func main() {
 		Rule: "matrix: every request of 5 methods x 5 EIO values x 4 transports x 4 sid kinds x b64 x j (1600) in 4 server states (6400 cases), each one real execution of Server.ServeHTTP on a fresh server under the controlled scheduler, " +
 			"judged by a reference validator (faults present => 400 + one of their protocol codes, or 503 when closed; no callback; store unchanged; live session keeps its queued packet); " +
 			"ids: every answer sequence over {same id as before, different} up to length 12 for crypto/rand, driving sequential handshakes until the answers are used up; " +
-			"schedules: all interleavings (happens-before pruned) of handshake || Close (|| poll) and of two handshakes with forced equal ids. " +
+			"schedules (CHESS cost model unless stated): handshake || Close: all interleavings (happens-before pruned) and preemption bound 2 (thorough 3); poll on a live session || Close: preemption bound 2 (thorough: 3 and all interleavings); " +
+			"handshake || Close with a live session, handshake || Close || poll, 2 handshakes || Close: delay bound 3 (thorough adds preemption bound 2, 1, 2 and delay bound 4 for the first); two concurrent handshakes with forced equal ids: preemption bound 2 (thorough 3). " +
 			"distinct_nontrivial counts matrix cases with at least one fault, a closed server or a handshake, id sequences with at least one collision, and deviating schedules",
 		Scenarios: scenarios,
 		Budget: func(tier string) time.Duration {
